@@ -13,6 +13,7 @@ from __future__ import annotations
 from harness import inputs, progs, tl
 from harness import universe as U
 from harness.core import st
+from harness import retry
 from harness.oracles import deep_same, diff_bucket, exc_bucket, snapshot, why_different
 from harness.props.c01 import value_labels
 
@@ -97,8 +98,23 @@ def per_program(p):
     except U._Exhausted:
         vs = None
     if vs is not None:
-        for _ in range(6):
-            check_valid(p, p.draw(vs), p.col)
+        for i_ in range(6):
+            v_ = p.draw(vs)
+            check_valid(p, v_, p.col)
+            if i_ in (1, 4):
+                # the valid value after a call that failed on this very object (one member invalid, then repaired in place)
+                pick = p.draw(st.integers(0, 10 ** 6))
+                r = retry.retry_after_failure(v_, lambda o: tl.call(tl.unmarshal, p.T, o), pick)
+                if r is not None:
+                    p.col.ev()
+                    failed, want, got = r
+                    p.col.label(f"retry:first-call-{'failed' if failed else 'passed'}")
+                    if failed:
+                        p.col.nt(p.key + p.src(v_) + "retry")
+                    if got != want:
+                        p.col.violation("pass-through", p.case(value=p.src(v_), retry=True, pick=pick),
+                                        f"unmarshal({p.mat.root_expr}, v) failed on an invalid member, the member was repaired in place, the same call then "
+                                        f"{'raised ' + got[1] if got[0] == 'exc' else 'returned something else'}", bucket=f"retry|{got[0]}")
     strat = inputs.any_input(p, vs)
     for _ in range(12):
         src, kind = p.draw(strat)
@@ -122,7 +138,14 @@ def run_shard(shard, col):
 
 
 def replay(clause, case, col):
-    if "value" in case:
+    if case.get("retry"):
+        def f(p):
+            r = retry.retry_after_failure(p.mat.eval(case["value"]), lambda o: tl.call(tl.unmarshal, p.T, o), case["pick"])
+            col.ev()
+            if r is not None and r[2] != r[1]:
+                col.violation("pass-through", case, f"after a handled failure on this object: {r[2][0]}", bucket=f"retry|{r[2][0]}")
+        progs.replay_program(case, col, f)
+    elif "value" in case:
         progs.replay_program(case, col, lambda p: check_valid(p, p.mat.eval(case["value"]), col))
     else:
         progs.replay_program(case, col, lambda p: check_idempotent(p, case["input"], "replay", col))
